@@ -701,6 +701,10 @@ class XMLResource(XMLResourceLoader):
         select_all = selector.select_all
         level = 0
 
+        # A path with predicates can depend on the position of the preceding
+        # siblings, that have to be kept (pruned) also for thin lazy resources.
+        keep_preceding = '[' in selector.path
+
         if ancestors is not None:
             ancestors.clear()
         elif self._thin_lazy:
@@ -725,7 +729,7 @@ class XMLResource(XMLResourceLoader):
                         if select_all or node in selector.iter_select(self):
                             yield node
                     if level == lazy_depth:
-                        self._clear(node, ancestors)
+                        self._clear(node, None if keep_preceding else ancestors)
 
     def find(self, path: str,
              namespaces: Optional[NsmapType] = None,
